@@ -1,7 +1,7 @@
 """C06 - C++ functions are only ever entered with correctly typed arguments.
 V: the driver records, for every ordered pair of an 18-entry unary and a 12-entry binary catalogue of signatures registered
-   under one name and every argument kind, which overload was entered, how often and what it received, plus boxed_cast<T>
-   of every argument kind to every requested form; TLC validates every recorded call against the property laws of
+   under one name and every argument kind, which overload was entered, how often and what it received (also for the seven forms of a
+   parameter reached through a user type_conversion, registered or not), plus boxed_cast<T> of every argument kind to every requested form; TLC validates every recorded call against the property laws of
    Dispatch.tla (TypeSafe/ConstSafe, ExactWins, ExactlyOnce, NoMatchNoEntry, ReceivedIsConverted, CastSound) and against the
    transcription of dispatch()/boxed_cast (differences there are reported as drift, not as violations).
 M: SpecSound - the transcription itself satisfies the laws for every catalogue pair and argument."""
@@ -62,6 +62,10 @@ def run(ck, tier, seed):
         elif r["k"] == "m":
             key = f"m:{r['member']}|{r['arg']}|{r['route']}"
             what = f"data member accessor `{r['member']}` reached by route {r['route']} with receiver {r['arg']}: outcome {r['oc']}, value {r['got']!r}"
+        elif r["k"] == "t":
+            key = f"t:{r['first']}|{r['second']}|{r['arg']}|conv{r['conv']}"
+            what = (f"overloads ov({r['first']})" + (f", ov({r['second']})" if r["second"] else "") + f" in an engine {'with' if r['conv'] else 'WITHOUT'} type_conversion<From, To>, called with {r['arg']}: "
+                    f"entered {r['entered'] or 'nothing'} {r['n']} time(s), received {r['recv']!r}, outcome {r['oc']}")
         elif r["k"] == "x":
             key = f"x:{r['case']}"
             what = f"case {r['case']}: overloads entered in sequence {r['seq']!r} ({r['n']} entries), outcome {r['oc']}"
@@ -79,6 +83,6 @@ def run(ck, tier, seed):
     if drift:
         ck.notes.append(f"{drift} recorded calls chose a different (still allowed) overload than the transcription of dispatch() predicts: the code path changed, the property did not fail")
     ck.rule = ("every ordered pair (and singleton) of 18 unary and 12 binary signatures x 18 (8) argument kinds, arity errors, boxed_cast of every argument "
-               "kind to 13 requested forms, and two data-member accessors x 12 receivers x 4 routes (call, dot, function value, bind); distinct = (row kind, entered overload, argument kind)")
-    ck.assumptions += ["signature catalogue and argument kinds are those of harness/vd_dispatch.cpp; vector/map conversions and user type_conversion<> are not in it yet"]
+               "kind to 13 requested forms, two data-member accessors x 12 receivers x 4 routes (call, dot, function value, bind), and 7 forms of a parameter reached through a user type_conversion (alone, beside an overload of the argument's own type, beside a catch-all, both registration orders) x 7 arguments x conversion registered or not; distinct = (row kind, entered overload, argument kind)")
+    ck.assumptions += ["signature catalogue and argument kinds are those of harness/vd_dispatch.cpp; vector/map conversions are not in it yet"]
     lib.rm(work)
